@@ -131,9 +131,11 @@ _counter = [0]
 
 
 def run(exe, args, stdin_data=None, stdin_path=None, env=None, timeout=180, workdir=None, stats=None,
-        out_name=None, keep=False, tag="r", allow_timeout=False, prefill_stats=None, stdin_chunk=None, prefill_out=None):
+        out_name=None, keep=False, tag="r", allow_timeout=False, prefill_stats=None, stdin_chunk=None, prefill_out=None, out_limit=None):
     """Run fastpasta. stats: 'json'|'toml' adds -S <file> -D <fmt>; out_name adds -o <file>.
-    stdin_path feeds a file through a pipe (cat-like) so that the tool sees a pipe, not a file."""
+    stdin_path feeds a file through a pipe (cat-like) so that the tool sees a pipe, not a file.
+    out_limit (bytes): for large cases. The tool's stdout goes to a scratch file and RLIMIT_FSIZE is set, so that a tool that writes far more than
+    it should is stopped by SIGXFSZ (an abnormal end, reported as such) instead of exhausting the memory of the check."""
     r = Run()
     wd = workdir or WORK
     os.makedirs(wd, exist_ok=True)
@@ -166,8 +168,16 @@ def run(exe, args, stdin_data=None, stdin_path=None, env=None, timeout=180, work
         if stdin_path is not None:
             with open(stdin_path, "rb") as f:
                 stdin_data = f.read()
+        so_path = so_file = pre = None
+        if out_limit is not None:
+            import resource
+            so_path = os.path.join(wd, uid + ".stdout")
+            so_file = open(so_path, "wb")
+
+            def pre(lim=int(out_limit)):
+                resource.setrlimit(resource.RLIMIT_FSIZE, (lim, lim))
         p = subprocess.Popen(argv, stdin=subprocess.PIPE if stdin_data is not None else subprocess.DEVNULL,
-                             stdout=subprocess.PIPE, stderr=subprocess.PIPE, env=e, cwd=wd)
+                             stdout=so_file if so_file is not None else subprocess.PIPE, stderr=subprocess.PIPE, env=e, cwd=wd, preexec_fn=pre)
         if stdin_chunk and stdin_data is not None:
             # deliver the input in small pieces (a real upstream process does): short reads on the tool's side
             import threading
@@ -193,6 +203,11 @@ def run(exe, args, stdin_data=None, stdin_path=None, env=None, timeout=180, work
                 # a wall-clock watchdog is never a verdict: the case is undecided (C04 / C17 decide hangs with the /proc criterion)
                 from common import Inconclusive
                 raise Inconclusive("watchdog (%ds) fired for: %s" % (timeout, " ".join(str(a) for a in argv)[:300]))
+        if so_file is not None:
+            so_file.close()
+            with open(so_path, "rb") as f:
+                out = f.read()
+            os.unlink(so_path)
         r.stdout = out
         r.stderr = err.decode("utf-8", "replace")
         if p.returncode is not None and p.returncode < 0:
